@@ -22,6 +22,7 @@ type StandinConf struct {
 	Pkg     string            `json:"pkg"`  // directory relative to the repo where the test is injected
 	File    string            `json:"file"` // file under /verif/standins
 	Run     string            `json:"run"`  // -run regexp
+	With    []string          `json:"with,omitempty"` // further files of /verif/standins injected alongside (shared helpers)
 	Kinds   []string          `json:"kinds,omitempty"` // failure kinds that belong to this property (empty = all)
 	Quick   map[string]string `json:"quick,omitempty"`
 	Thorough map[string]string `json:"thorough,omitempty"`
@@ -37,6 +38,9 @@ func (c *checkCtx) runStandin(sc StandinConf) map[string]interface{} {
 	src := filepath.Join(verifDir, "standins", sc.File)
 	dst := filepath.Join(repoDir, sc.Pkg, "zz_govc_standin_test.go")
 	ov := map[string]map[string]string{"Replace": {dst: src}}
+	for i, w := range sc.With {
+		ov["Replace"][filepath.Join(repoDir, sc.Pkg, fmt.Sprintf("zz_govc_standin_with%d_test.go", i))] = filepath.Join(verifDir, "standins", w)
+	}
 	data, _ := json.Marshal(ov)
 	ovFile := filepath.Join(scratch(), "overlay-"+sc.Name+".json")
 	os.WriteFile(ovFile, data, 0o644)
